@@ -1,5 +1,7 @@
 (** C04 — the fixed file is exactly the fixed tree; templated code is untouched. Pinned statements only. *)
 From Sq Require Import Base.Bytes Patch.Model Patch.Proofs Patch.Legacy Patch.SpanModel Patch.SpanProofs.
+From Sq Require Import Patch.TemplatedModel Patch.TemplatedWeave Patch.TemplatedTree.
+From Sq Require Templ.Model Templ.ProcProofs.
 
 (** What [fix_string] writes for ANY list of patches is the source with the normalised patches
     (first patch per (source slice, text), stable order by start, patches starting before the
@@ -35,6 +37,39 @@ Theorem C04_templated_keeps_partial : forall tf t a b,
   exists pre post, fixed_text tf t = pre ++ sub (src tf) a b ++ post.
 Proof. exact fixed_text_keeps. Qed.
 Print Assumptions C04_templated_keeps_partial.
+
+(** With templating, full statement about the model. For every templated file whose slices tile the source
+    and the templated text ([Templ.ProcProofs.tiling]: what C15_render_tiling proves of the placeholder
+    templater's output) and every final tree with [tree_ok] (decidable; Patch/TemplatedModel.v: the ghost walk
+    [dpatches] along the branches [iter_patches] takes succeeds - templated ranges in reading order, every
+    changed leaf literal, no text in dropped metas -, the root's templated slice is the whole templated text,
+    the patches are sorted / disjoint / duplicate-free, every patch covers the same stretch of ONE literal
+    slice in source and templated text or is an insertion at a common slice border):
+    the text fix writes is literal pieces [lits] woven around ALL placeholders' own source texts, byte-identical
+    and in order, and the final tree's raw is the same [lits] woven around the placeholders' renderings - the
+    fixed source re-rendered ([render]). *)
+Theorem C04_templated : forall tf sl t,
+  Templ.ProcProofs.tiling (src tf) (tpl tf) sl 0 0 -> tree_ok tf sl t = true ->
+  exists lits, length lits = S (length (phs tf sl)) /\
+    fixed_text tf t = weave lits (phs tf sl) /\
+    raw t = render tf sl lits.
+Proof. exact templated_fixed_text. Qed.
+Print Assumptions C04_templated.
+
+(** The ghost walk is [iter_patches]: forgetting the templated ranges gives exactly the model's patch list. *)
+Theorem C04_templated_ghost : forall tf s ds,
+  dpatches tf s = Some ds -> map spatch ds = iter_patches tf s.
+Proof. exact dpatches_erase. Qed.
+Print Assumptions C04_templated_ghost.
+
+(** Tree side, for every segment on which the walk succeeds (no premise on source positions): the templated
+    images of its patches are in order inside the segment's templated slice and, spliced into the templated
+    text over that slice, give the segment's raw. *)
+Theorem C04_templated_tree_side : forall tf s ds, dpatches tf s = Some ds ->
+  tch (t0 (seg_pos s)) (t1 (seg_pos s)) ds /\
+  splice_r (tpl tf) (t0 (seg_pos s)) (t1 (seg_pos s)) (map tpatch ds) = raw s.
+Proof. exact dpatches_T. Qed.
+Print Assumptions C04_templated_tree_side.
 
 (** Before the repair (dedupe on the source slice alone, region looked up among all patches) a
     sorted, non-overlapping patch list with two different insertions at one position lost one. *)
